@@ -372,6 +372,25 @@ func c12Prop(k *verifkit.Kit) func(c c12Case) error {
 		if nlog-dropped != len(strings.Fields(wantS)) {
 			return verifkit.Violf("C12/log-lines", "want %d 'inconsistency N:' log lines, got %d:\n%s", len(strings.Fields(wantS)), nlog-dropped, logs.String())
 		}
+		// ... and each line names the field and the details (the prefix or route concerned) of its own
+		// problem: `inconsistency N: "field": (details) want ...`
+		var logged []c12Label
+		for _, line := range strings.Split(logs.String(), "\n") {
+			_, rest, ok := strings.Cut(line, ": inconsistency ")
+			if !ok {
+				continue
+			}
+			_, rest, _ = strings.Cut(rest, ": \"")
+			field, rest, _ := strings.Cut(rest, "\": ")
+			l := c12Label{Field: field}
+			if strings.HasPrefix(rest, "(") {
+				l.Details, _, _ = strings.Cut(rest[1:], ") ")
+			}
+			logged = append(logged, l)
+		}
+		if gotS := c12Multiset(logged, drop); gotS != wantS {
+			return verifkit.Violf("C12/log-line-content/"+c12Diff(wantS, gotS), "log lines name {%s}, the inconsistencies are {%s}:\n%s", gotS, wantS, logs.String())
+		}
 		if len(unspec) == 0 {
 			if (hooks > 0) != (len(want) > 0) || hooks > 1 {
 				return verifkit.Violf("C12/hook", "hook fired %d times for %d expected inconsistencies", hooks, len(want))
